@@ -76,7 +76,8 @@ def run(ctx):
         rc, out = vf.run_cli(ctx.bdir, args, d, timeout=120)
         runs += 1
         outcomes['ran' if rc == 0 else 'error'] += 1
-        if rc == 124 and any(len(t) > 6 and t.isdigit() for l in data.decode('latin-1').split('\n') for t in l.split()[2:]):
+        if rc == 124 and any((len(t) > 6 and t.isdigit()) or (t.startswith('-') and t[1:].isdigit()) for l in data.decode('latin-1').split('\n') for t in l.split()[2:]):
+            # (a negative weight token is read by operator>>(size_t&) as 2^64 - w: the same request for a huge multiplicity)
             outcomes['resource'] = outcomes.get('resource', 0) + 1      # a huge multiplicity was requested: not a memory-safety event
             continue
         if 'ERROR: AddressSanitizer' in out or 'runtime error:' in out or 'Assertion' in out or 'LeakSanitizer' in out or rc == 124:
